@@ -74,11 +74,11 @@ def entry_bytes(name, data, status=1, length=None, hash_=None, h16=None):
         (md5(data) if hash_ is None else hash_) + (md5(data[:16384]) if h16 is None else h16) + nb
 
 
-def volume_bytes(entries_raw, saved_hashes, number, data, count=None, flo=0x60, version=0x00010000, ident=b"PAR\0\0\0\0\0", sethash=None, fix_control=True, flb=None, databytes=None):
+def volume_bytes(entries_raw, saved_hashes, number, data, count=None, flo=0x60, version=0x00010000, ident=b"PAR\0\0\0\0\0", sethash=None, fix_control=True, flb=None, databytes=None, dataoff=None):
     rest = b"".join(entries_raw) + data
     flb = (len(rest) - len(data)) if flb is None else flb
     sh = md5(b"".join(saved_hashes)) if sethash is None else sethash
-    tail = sh + struct.pack("<QQQQQQ", number, len(entries_raw) if count is None else count, flo, flb & 0xFFFFFFFFFFFFFFFF, (0x60 + flb) & 0xFFFFFFFFFFFFFFFF, len(data) if databytes is None else databytes)
+    tail = sh + struct.pack("<QQQQQQ", number, len(entries_raw) if count is None else count, flo, flb & 0xFFFFFFFFFFFFFFFF, ((0x60 + flb) if dataoff is None else dataoff) & 0xFFFFFFFFFFFFFFFF, len(data) if databytes is None else databytes)
     control = md5(tail + rest) if fix_control else bytes(16)
     return ident + struct.pack("<Q", version) + control + tail + rest
 
@@ -170,7 +170,7 @@ def validate_volume(b, names, datas, number):
 
 NAMES1 = ["a.dat", "b b.bin", "café.txt", "日本語", "clef\U0001D11E.mus", "e", "UPPER.DAT", "x.par.bak", "ü\U0001F600ß",
           "tail\U0001F600", "\U0001D11E", "\U0001F600\U0001F601", "\uffff\ue000.x",
-          "name\u4e00", "x\uac00", "voila\u0300", "\u0100\u0100"]   # last UTF-16 unit has a zero LOW byte (looks like NUL padding to a sloppy reader)   # astral characters first, last, alone, adjacent
+          "name\u4e00", "x\uac00", "voila\u0300", "\u0100\u0100", ".hidden", "..\u00dcbung.cfg", "...", ".a.b."]   # last UTF-16 unit has a zero LOW byte (looks like NUL padding to a sloppy reader)   # astral characters first, last, alone, adjacent
 SIZES1 = [0, 1, 7, 100, 16383, 16384, 20000]
 
 
